@@ -7,6 +7,8 @@
 package evid
 
 import (
+	"runtime"
+	"syscall"
 	"encoding/binary"
 	"encoding/json"
 	"fmt"
@@ -348,20 +350,68 @@ func Enumerate[C any](t *testing.T, id, check string, opts Opts, cases func(yiel
 	})
 }
 
-// WithTimeout runs f on its own goroutine and reports whether it returned
-// within d. The goroutine is abandoned on timeout (the caller reports a
-// failure, so the process is about to be torn down or the case shrunk).
+// Stretch scales a time budget by how starved this machine is. Every time budget in the checks
+// is a multiple of what the operation needs on an idle machine; when 100 runnable processes share
+// 16 cores everything takes load/cores times longer, and a verdict such as "still blocked after
+// 10 s" would be about the machine, not about the code. Budgets are therefore stretched by
+// 4 x load/cores (never shortened). A stretched budget can only delay a verdict.
+func Stretch(d time.Duration) time.Duration {
+	f := 1.0
+	if b, err := os.ReadFile("/proc/loadavg"); err == nil {
+		var l1 float64
+		if _, err := fmt.Sscanf(string(b), "%f", &l1); err == nil {
+			if x := 4 * l1 / float64(runtime.NumCPU()); x > f {
+				f = x
+			}
+		}
+	}
+	if f > 60 {
+		f = 60
+	}
+	return time.Duration(float64(d) * f)
+}
+
+func processCPU() time.Duration {
+	var ru syscall.Rusage
+	if syscall.Getrusage(syscall.RUSAGE_SELF, &ru) != nil {
+		return 0
+	}
+	return time.Duration(ru.Utime.Nano() + ru.Stime.Nano())
+}
+
+// WithTimeout runs f on its own goroutine and reports whether it returned within the budget d.
+// The budget is met when f returns; it is exceeded when this process has burnt d of CPU time
+// since the call (busy hang), or when the wall clock has passed Stretch(d) (blocked: the stretch
+// keeps a starved machine from being mistaken for a blocked goroutine). The goroutine is
+// abandoned on timeout (the caller reports a failure, so the process is about to be torn down
+// or the case shrunk).
 func WithTimeout(d time.Duration, f func()) (returned bool, panicked interface{}) {
 	done := make(chan interface{}, 1)
 	go func() {
 		defer func() { done <- recover() }()
 		f()
 	}()
-	select {
-	case p := <-done:
-		return true, p
-	case <-time.After(d):
-		return false, nil
+	start, cpu0 := time.Now(), processCPU()
+	tick := time.NewTicker(50 * time.Millisecond)
+	defer tick.Stop()
+	for {
+		select {
+		case p := <-done:
+			return true, p
+		case <-tick.C:
+			wall := time.Since(start)
+			if wall < d {
+				continue
+			}
+			if processCPU()-cpu0 >= d || wall >= Stretch(d) {
+				select {
+				case p := <-done:
+					return true, p
+				default:
+				}
+				return false, nil
+			}
+		}
 	}
 }
 
